@@ -9,12 +9,16 @@ from datetime import datetime
 
 from .. import clock
 from ..sched import Tracer
+from ..sched2 import Coop, record as record2
 from ..target import InfraError, ensure
 from .c03 import canon
 
 ID = "C20"
 LEVEL = "model_checking"
-TECHNIQUE = "stateless schedule enumeration on the real code under a controlled scheduler: call A runs under sys.settrace and the process forks at every executed library source line; each child runs call B to completion on a real thread at that point and then resumes A (preemption bound 1, line granularity); oracle = the results of the two sequential orders from the same initial state"
+TECHNIQUE = ("stateless schedule enumeration on the real code under a controlled scheduler: (bound 1) call A runs under sys.settrace and the process forks at every "
+             "executed library source line; each child runs call B to completion on a real thread at that point and then resumes A; (bound 2) a cooperative "
+             "baton scheduler runs A to line k, B to line j, A to completion, B to completion for every pair (k, j) of first occurrences of static source "
+             "locations; oracle = the results of the two sequential orders from the same initial state")
 RULE = ("a schedule = (pair of calls, which call is preempted, initial state cold/warm, index k of the library line event before "
         "which the switch happens); all k of the traced run are executed (cold quick tier: the first two and the last dynamic "
         "occurrence of every static (file, line, caller) location); a transition = one executed schedule; states = distinct "
@@ -128,7 +132,11 @@ def _in_child(fn, *a):
     if pid == 0:
         try:
             os.close(r)
-            out = json.dumps(fn(*a)).encode()
+            try:
+                out = json.dumps(fn(*a)).encode()
+            except BaseException:  # noqa: BLE001
+                import traceback
+                out = json.dumps({"__child_error__": traceback.format_exc()}).encode()
             with os.fdopen(w, "wb") as f:
                 f.write(out)
         finally:
@@ -136,16 +144,21 @@ def _in_child(fn, *a):
     os.close(w)
     with os.fdopen(r, "rb") as f:
         data = f.read()
-    os.waitpid(pid, 0)
+    _, st = os.waitpid(pid, 0)
     if not data:
-        raise InfraError("child produced no result")
-    return json.loads(data)
+        raise InfraError("child produced no result (wait status %r)" % (st,))
+    res = json.loads(data)
+    if isinstance(res, dict) and "__child_error__" in res:
+        raise InfraError("child failed: " + res["__child_error__"])
+    return res
 
 
 def _driver(task):
     """One (pair, role, init, selection) exploration; runs in a process forked from the pristine parent."""
     try:
-        pname, a_name, b_name, init, mode, cap = task
+        pname, a_name, b_name, init, mode, cap = task[:6]
+        part, nparts = (task[6], task[7]) if len(task) > 6 else (0, 1)
+        t_start = time.time()
         clock.freeze(NOW)
         A, Bc = call(a_name), call(b_name)
         if init == "warm":
@@ -177,6 +190,9 @@ def _driver(task):
                 for ks in occ.values():
                     select.update(ks[:2])
                     select.add(ks[-1])
+            if nparts > 1:
+                # this driver explores the residue class `part` (mod nparts) of the selected events; its siblings the others
+                select = {k for k in (range(n) if select is None else select) if k % nparts == part}
             tr.select = select
 
             def go():
@@ -213,11 +229,186 @@ def _driver(task):
             if pair not in allowed:
                 bad.append(r)
         return {"pair": pname, "A": a_name, "B": b_name, "init": init, "mode": mode, "line_events": n, "schedules": len(results),
-                "static_locations": len(locs), "outcomes": outcomes, "blocked": blocked, "allowed": sorted(allowed),
-                "bad": bad[:2000], "static_total": len({(l[0], l[1]) for l in locs1})}
+                "part": part, "nparts": nparts, "loc_set": sorted(locs), "static_locations": len(locs), "outcomes": outcomes, "blocked": blocked, "allowed": sorted(allowed),
+                "bad": bad[:2000], "static_total": len({(l[0], l[1]) for l in locs1}), "driver_wall_s": round(time.time() - t_start, 1)}
     except Exception:  # noqa: BLE001
         import traceback
         return {"error": traceback.format_exc()}
+
+
+# ------------------------------------------------------------------------------------------------ bound 2
+BOUND2_QUICK = ["same-config-same-language"]
+BOUND2_THOROUGH = ["same-config-same-language", "default-settings-fr-vs-en"]
+B2_STRIPES_QUICK = 36
+
+
+def _firsts(locs):
+    seen, out = set(), []
+    for i, l in enumerate(locs):
+        key = (l[0], l[1])
+        if key not in seen:
+            seen.add(key)
+            out.append(i)
+    return out
+
+
+def _driver2(task):
+    """Bound-2 exploration of one chunk of A's preemption points: every (k, j) with k in the chunk and j over all first
+    occurrences of B's static locations (plus j = len(B): B not preempted).  Runs in a process forked from the pristine parent."""
+    try:
+        pname, a_name, b_name, chunk, nchunks, stripe, nstripes = task
+        clock.freeze(NOW)
+        A, Bc = call(a_name), call(b_name)
+        A()
+        Bc()
+        seq_ab = _in_child(lambda: [A(), Bc()])
+        seq_ba = _in_child(lambda: list(reversed([Bc(), A()])))
+        ra1, la = _in_child(lambda: record2(A))
+        ra2, la2 = _in_child(lambda: record2(A))
+        rb1, lb = _in_child(lambda: record2(Bc))
+        rb2, lb2 = _in_child(lambda: record2(Bc))
+        if la != la2 or lb != lb2 or ra1 != ra2 or rb1 != rb2:
+            return {"error": "traced runs of %s/%s are not deterministic" % (a_name, b_name)}
+        fa, fb = _firsts(la), _firsts(lb)
+        ks = fa[stripe::nstripes][chunk::nchunks]
+        js = fb + [len(lb)]
+        co = Coop(A, Bc)
+        allowed = {(seq_ab[0], seq_ab[1]), (seq_ba[0], seq_ba[1])}
+        outcomes, bad = {}, []
+        n = blocked = b_short = 0
+        for k in ks:
+            for j in js:
+                r = _in_child(lambda: co.run(k, j))
+                if "error" in r:
+                    return {"error": "schedule (%d,%d) of %s: %s" % (k, j, pname, r["error"])}
+                if r["reached"]["A"] is None or list(r["reached"]["A"]) != list(la[k]):
+                    return {"error": "replayed prefix diverged: A reached %r, recorded %r at k=%d" % (r["reached"]["A"], la[k], k)}
+                n += 1
+                blocked += 1 if r["blocked"] else 0
+                if j < len(lb) and r["reached"]["B"] is None:
+                    b_short += 1      # B took another path after A's partial effects and finished before its j-th line
+                pair = (r["ra"], r["rb"])
+                kk = json.dumps(pair)
+                outcomes[kk] = outcomes.get(kk, 0) + 1
+                if pair not in allowed:
+                    bad.append({"k": k, "j": j, "ra": r["ra"], "rb": r["rb"], "locA": r["reached"]["A"], "locB": r["reached"]["B"]})
+        return {"pair": pname, "A": a_name, "B": b_name, "chunk": chunk, "stripe": stripe, "nstripes": nstripes, "schedules": n,
+                "ks": len(ks), "js": len(js), "static_A": len(fa), "static_B": len(fb), "line_events_A": len(la), "line_events_B": len(lb),
+                "blocked": blocked, "b_finished_early": b_short, "outcomes": outcomes, "allowed": sorted(allowed), "bad": bad[:500]}
+    except Exception:  # noqa: BLE001
+        import traceback
+        return {"error": traceback.format_exc()}
+
+
+def _run_bound2(tier, seed, jobs, deadline, t0, report):
+    T = tier == "thorough"
+    pairs = {p[0]: p for p in PAIRS}
+    nstripes = 1 if T else B2_STRIPES_QUICK
+    stripe = 0 if T else seed % nstripes
+    nchunks = max(2, jobs - 2) * (4 if T else 1)
+    tasks = []
+    for name in (BOUND2_THOROUGH if T else BOUND2_QUICK):
+        _, a, b = pairs[name]
+        for x, y in ((a, b), (b, a)):
+            for c in range(nchunks):
+                tasks.append((name, x, y, c, nchunks, stripe, nstripes))
+    ctx = mp.get_context("fork")
+    res = []
+    with ctx.Pool(max(2, jobs - 2), maxtasksperchild=1) as pool:
+        for r in pool.imap_unordered(_driver2, tasks, chunksize=1):
+            if "error" in r:
+                pool.terminate()
+                raise InfraError(r["error"])
+            res.append(r)
+            if time.time() - t0 > deadline:
+                pool.terminate()
+                report.exhaustive = False
+                report.notes.append("deadline hit in bound-2 exploration: %d of %d chunks finished" % (len(res), len(tasks)))
+                break
+    agg = {}
+    for r in res:
+        g = agg.setdefault((r["pair"], r["A"]), {"pair": r["pair"], "A": r["A"], "B": r["B"], "schedules": 0, "ks": 0, "js": r["js"], "blocked": 0,
+                                                 "b_finished_early": 0, "outcomes": {}, "bad": [], "allowed": r["allowed"], "static_A": r["static_A"],
+                                                 "static_B": r["static_B"], "line_events_A": r["line_events_A"], "line_events_B": r["line_events_B"],
+                                                 "stripe": "%d/%d" % (r["stripe"], r["nstripes"])})
+        for f in ("schedules", "ks", "blocked", "b_finished_early"):
+            g[f] += r[f]
+        for o, c in r["outcomes"].items():
+            g["outcomes"][o] = g["outcomes"].get(o, 0) + c
+        g["bad"].extend(r["bad"])
+    total = 0
+    per = []
+    for (pname, a_name), g in sorted(agg.items()):
+        total += g["schedules"]
+        per.append({k: g[k] for k in ("pair", "A", "B", "schedules", "ks", "js", "static_A", "static_B", "line_events_A", "line_events_B", "blocked",
+                                      "b_finished_early", "stripe")} | {"distinct_outcomes": len(g["outcomes"]), "violating_schedules": len(g["bad"])})
+        groups = {}
+        ab, ba = g["allowed"][0], g["allowed"][-1]
+        for b in g["bad"]:
+            victim = []
+            if b["ra"] not in (ab[0], ba[0]):
+                victim.append("A")
+            if b["rb"] not in (ab[1], ba[1]):
+                victim.append("B")
+            gg = groups.setdefault((b["ra"], b["rb"]), {"n": 0, "first": b, "victim": "+".join(victim) or "combination", "regions": {}})
+            gg["n"] += 1
+            reg = "%s:%s" % (b["locA"][0], b["locA"][2])
+            gg["regions"][reg] = gg["regions"].get(reg, 0) + 1
+        for (ra, rb), gg in groups.items():
+            report.add_violation({
+                "cls": {"pair": pname, "preempted": a_name, "other": g["B"], "init": "warm", "bound": 2, "victim": gg["victim"], "rA": ra, "rB": rb},
+                "count": gg["n"],
+                "examples": [{"sub": "schedules-bound-2", "case": {"pair": pname, "A": a_name, "B": g["B"], "init": "warm", "k": gg["first"]["k"],
+                                                                  "j": gg["first"]["j"], "bound": 2},
+                              "expected": {"sequential A;B": ab, "sequential B;A": ba}, "observed": {"rA": ra, "rB": rb},
+                              "detail": {"A_preempted_before": gg["first"]["locA"], "B_preempted_before": gg["first"]["locB"],
+                                         "schedules_with_this_outcome": gg["n"],
+                                         "A_preemption_regions": dict(sorted(gg["regions"].items(), key=lambda x: -x[1])[:25])}}]})
+    return total, per
+
+
+def _measure(task):
+    """Number of library line events of the preempted call of a task (decides into how many parts the task is cut)."""
+    try:
+        pname, a_name, b_name, init = task[:4]
+        clock.freeze(NOW)
+        A, Bc = call(a_name), call(b_name)
+        if init == "warm":
+            A()
+            Bc()
+        tr = Tracer(A, Bc, None)
+        return len(_in_child(lambda: tr.record())[1])
+    except Exception:  # noqa: BLE001
+        import traceback
+        return {"error": traceback.format_exc()}
+
+
+def _merge_parts(results):
+    """One record per (pair, preempted call, initial state): the residue-class parts of a task put together again."""
+    out = {}
+    for r in results:
+        key = (r["pair"], r["A"], r["init"], r["mode"])
+        g = out.get(key)
+        if g is None:
+            g = out[key] = dict(r, loc_set=set(map(tuple, r["loc_set"])), outcomes=dict(r["outcomes"]), bad=list(r["bad"]), parts=1)
+            continue
+        if g["line_events"] != r["line_events"] or g["allowed"] != r["allowed"]:
+            raise InfraError("parts of %r disagree on the traced run (%d vs %d line events)" % (key, g["line_events"], r["line_events"]))
+        g["parts"] += 1
+        g["schedules"] += r["schedules"]
+        g["blocked"] += r["blocked"]
+        g["loc_set"] |= set(map(tuple, r["loc_set"]))
+        g["bad"] += r["bad"]
+        g["driver_wall_s"] = max(g["driver_wall_s"], r["driver_wall_s"])
+        for o, c in r["outcomes"].items():
+            g["outcomes"][o] = g["outcomes"].get(o, 0) + c
+    for g in out.values():
+        if g["parts"] != g["nparts"]:
+            raise InfraError("%d of %d parts of %s/%s reported" % (g["parts"], g["nparts"], g["pair"], g["A"]))
+        g["static_locations"] = len(g["loc_set"])
+        if g["mode"] == "all" and g["schedules"] != g["line_events"]:
+            raise InfraError("%s/%s: %d schedules for %d line events" % (g["pair"], g["A"], g["schedules"], g["line_events"]))
+    return list(out.values())
 
 
 def run(tier, seed, jobs, deadline, report):
@@ -252,6 +443,17 @@ def run(tier, seed, jobs, deadline, report):
     t0 = time.time()
     results = []
     ndrivers = max(2, jobs // 2 - 2)
+    # long traced runs (search: ~18 k line events) are cut into residue classes so that no single driver is the critical path
+    with ctx.Pool(ndrivers, maxtasksperchild=1) as pool:
+        sizes = pool.map(_measure, tasks, chunksize=1)
+    cut = []
+    for t, n in zip(tasks, sizes):
+        if isinstance(n, dict):
+            raise InfraError(n["error"])
+        nparts = max(1, -(-n // 2500)) if t[4] == "all" else 1
+        cut += [t + (p, nparts) for p in range(nparts)]
+    ntasks = len(tasks)
+    tasks = cut
     with ctx.Pool(ndrivers, maxtasksperchild=1) as pool:
         for r in pool.imap_unordered(_driver, tasks, chunksize=1):
             if "error" in r:
@@ -266,10 +468,12 @@ def run(tier, seed, jobs, deadline, report):
     total = 0
     locs = 0
     per = []
+    if report.exhaustive:
+        results = _merge_parts(results)
     for r in sorted(results, key=lambda r: (r["pair"], r["A"], r["init"])):
         total += r["schedules"]
         locs += r["static_locations"]
-        per.append({k: r[k] for k in ("pair", "A", "B", "init", "mode", "line_events", "schedules", "static_locations", "static_total", "blocked")}
+        per.append({k: r[k] for k in ("pair", "A", "B", "init", "mode", "line_events", "schedules", "static_locations", "static_total", "blocked", "driver_wall_s")}
                    | {"distinct_outcomes": len(r["outcomes"]), "violating_schedules": len(r["bad"])})
         groups = {}
         for b in r["bad"]:
@@ -293,15 +497,19 @@ def run(tier, seed, jobs, deadline, report):
                               "observed": {"rA": ra, "rB": rb},
                               "detail": {"preempted_before": g["first"]["loc"], "schedules_with_this_outcome": g["n"],
                                          "preemption_regions": dict(sorted(g["regions"].items(), key=lambda x: -x[1])[:25])}}]})
-    report.evaluations = total
-    report.nontrivial = total
-    report.hist = {"schedules": total}
+    total2, per2 = _run_bound2(tier, seed, jobs, deadline, t0, report) if report.exhaustive else (0, [])
+    report.evaluations = total + total2
+    report.nontrivial = total + total2
+    report.hist = {"schedules-bound-1": total, "schedules-bound-2": total2}
     report.samples = [{"pair": r["pair"], "preempted": r["A"], "other": r["B"], "init": r["init"], "line_events": r["line_events"],
                        "outcomes": r["outcomes"]} for r in results[:6]]
     report.subspaces = [{"name": "%s/%s preempted/%s/%s" % (p["pair"], p["A"], p["init"], p["mode"]), "size": p["schedules"],
                          "executed": p["schedules"], "complete": True} for p in per]
-    report.extra.update({"states": max(1, locs), "transitions": total, "traces_validated_against_impl": total,
-                         "preemption_bound": 1, "granularity": "source line", "drivers": per,
+    report.subspaces += [{"name": "bound-2/%s/%s first/warm/k-stripe %s" % (p["pair"], p["A"], p["stripe"]), "size": p["schedules"],
+                          "executed": p["schedules"], "complete": True} for p in per2]
+    report.extra.update({"states": max(1, locs), "transitions": total + total2, "traces_validated_against_impl": total + total2,
+                         "preemption_bound": "1 (every line event) and 2 (first occurrence of every static location, cooperative scheduler)",
+                         "granularity": "source line", "drivers": per, "drivers_bound_2": per2,
                          "pairs": [list(p) for p in PAIRS]})
 
 
@@ -320,7 +528,8 @@ def match_finding(finding, cls):
 
 
 def _replay_one(task):
-    a_name, b_name, init, k = task
+    a_name, b_name, init, k = task[:4]
+    j = task[4] if len(task) > 4 else None
     clock.freeze(NOW)
     A, Bc = call(a_name), call(b_name)
     if init == "warm":
@@ -328,6 +537,11 @@ def _replay_one(task):
         Bc()
     seq_ab = _in_child(lambda: [A(), Bc()])
     seq_ba = _in_child(lambda: list(reversed([Bc(), A()])))
+    if j is not None:
+        r = _in_child(lambda: Coop(A, Bc).run(k, j))
+        if "error" in r:
+            raise InfraError(r["error"])
+        return seq_ab, seq_ba, [{"ra": r["ra"], "rb": r["rb"], "loc": r["reached"]["A"], "locB": r["reached"]["B"]}]
     outdir = tempfile.mkdtemp(prefix="verif-c20r-", dir="/dev/shm")
     try:
         tr = Tracer(A, Bc, outdir, select={k}, cap=1)
@@ -348,7 +562,7 @@ def replay(rec):
     ctx = mp.get_context("fork")
 
     with ctx.Pool(1, maxtasksperchild=1) as pool:
-        seq_ab, seq_ba, res = pool.apply(_replay_one, ((c["A"], c["B"], c["init"], c["k"]),))
+        seq_ab, seq_ba, res = pool.apply(_replay_one, ((c["A"], c["B"], c["init"], c["k"]) + ((c["j"],) if c.get("bound") == 2 else ()),))
     if not res:
         raise InfraError("schedule k=%s was not reached" % c["k"])
     r = res[0]
